@@ -306,6 +306,51 @@ func drive(args []string) {
 		inconWhy = append(inconWhy, o.InconWhy...)
 		globals = o.Globals
 	}
+	// reach: yield sites hit, per instrumented build
+	reach := map[string]any{}
+	for _, build := range []string{"yield-entry", "yield-full"} {
+		seen := map[uint32]bool{}
+		all := 0
+		for _, o := range outs {
+			if o.Build == build {
+				all = o.SitesAll
+				for _, id := range o.SitesSeen {
+					seen[id] = true
+				}
+			}
+		}
+		if all == 0 {
+			continue
+		}
+		entry := map[string]any{"yield_sites": all, "yield_sites_reached": len(seen)}
+		if st, err := work.LoadSites(b.sites(build)); err == nil {
+			fnAll, fnHit := map[string]bool{}, map[string]bool{}
+			for _, si := range st.Sites[1:] {
+				fnAll[si.Func] = true
+				if seen[si.ID] {
+					fnHit[si.Func] = true
+				}
+			}
+			var missed []string
+			for f := range fnAll {
+				if !fnHit[f] {
+					missed = append(missed, f)
+				}
+			}
+			sort.Strings(missed)
+			var missedSites []string
+			for _, si := range st.Sites[1:] {
+				if !seen[si.ID] && len(missedSites) < 40 {
+					missedSites = append(missedSites, fmt.Sprintf("%s:%d (%s)", si.File, si.Line, si.Func))
+				}
+			}
+			entry["yield_sites_not_reached"] = missedSites
+			entry["functions"] = len(fnAll)
+			entry["functions_entered"] = len(fnHit)
+			entry["functions_never_entered"] = missed
+		}
+		reach[build] = entry
+	}
 	if incon*20 > runs+20 {
 		fatal2("%d of %d runs inconclusive: %v", incon, runs, inconWhy)
 	}
@@ -413,6 +458,7 @@ func drive(args []string) {
 		"runs_per_build":       builds,
 		"returned_slices_kept": agg.Retained,
 		"entropy_reads":        agg.EntropyRd,
+		"library_code_reached": reach,
 		"determinism_rechecks": detChecks,
 		"non_repeating_runs":   nonRepeat,
 		"worker_restarts_for_pristine_library_state": restarts,
@@ -492,6 +538,10 @@ func mergeWorker(acc, w *WorkerOut) {
 	acc.NonRepeat += w.NonRepeat
 	acc.LastIdx = w.LastIdx
 	acc.SegFrom = w.SegFrom
+	acc.SitesSeen = append(acc.SitesSeen, w.SitesSeen...)
+	if w.SitesAll > 0 {
+		acc.SitesAll = w.SitesAll
+	}
 	acc.Poisoned = acc.Poisoned || w.Poisoned
 }
 
